@@ -48,6 +48,11 @@ class TensorDecoder(json.JSONDecoder):
             if nn:
                 tensor = torch.nn.Parameter(tensor)
             return tensor
+        # JSON object keys are always strings: restore the integer keys of the
+        # dictionaries that json.dump wrote (state of torch optimizers indexed by
+        # parameter, milestones of MultiStepLR)
+        if len(dic) > 0 and all(key.isdigit() for key in dic):
+            return {int(key): value for key, value in dic.items()}
         return dic
 
 
